@@ -127,6 +127,7 @@ def run_mapping(
                         out_file.write('junk')
                     pth.unlink()
                 except FileNotFoundError:
+                    _clean_up(tmp_dir)
                     raise RuntimeError(
                         "unable to write to "
                         f"{pth.resolve().absolute()}")
